@@ -310,6 +310,11 @@ func registerModels(e *Engine) {
 			key = f
 		case *Closure:
 			key = f.Fn
+			if strings.HasPrefix(f.Fn.Synthetic, "bound method wrapper") {
+				// all method values of one method share one code pointer in Go; go/ssa
+				// may build a separate wrapper per use
+				key = "bound:" + f.Fn.String()
+			}
 		case *Val:
 			if f == nil {
 				return in.ctx.Const(64, 0)
